@@ -40,11 +40,12 @@ type Case struct {
 	Method    string   `json:"method"`
 	BodyKind  string   `json:"body_kind"` // none (nil body) | bytes (length known, rewindable) | stream (opaque reader: chunked)
 	BodySize  int      `json:"body_size"`
-	SPN       string   `json:"spn"`           // explicit | derived-ip | derived-localhost | derived-rooted (URL host "localhost.")
-	TktEType  int32    `json:"ticket_etype"`  // etype of the issued service ticket
-	SessEType int32    `json:"session_etype"` // etype of the client's keys and of the session keys
-	Lazy      bool     `json:"lazy_login"`    // Do is called on a client that has not logged in yet
-	Via       string   `json:"via,omitempty"` // "" / do: Client.Do; helper: Client.Get / Head / Post
+	SPN       string   `json:"spn"`                       // explicit | derived-ip | derived-localhost | derived-rooted (URL host "localhost.")
+	TktEType  int32    `json:"ticket_etype"`              // etype of the issued service ticket
+	SessEType int32    `json:"session_etype"`             // etype of the client's keys and of the session keys
+	Lazy      bool     `json:"lazy_login"`                // Do is called on a client that has not logged in yet
+	Expect    bool     `json:"expect_continue,omitempty"` // the caller sets "Expect: 100-continue" on the request (uploads)
+	Via       string   `json:"via,omitempty"`             // "" / do: Client.Do; helper: Client.Get / Head / Post
 	Seed      uint64   `json:"seed"`
 }
 
@@ -274,7 +275,7 @@ func run(c Case) (evid.Verdict, Obs) {
 	}
 	defer stop()
 	dialer := &net.Dialer{Timeout: 10 * time.Second}
-	tr := &http.Transport{Proxy: nil, DisableCompression: true, DialContext: func(ctx context.Context, network, addr string) (net.Conn, error) {
+	tr := &http.Transport{Proxy: nil, DisableCompression: true, ExpectContinueTimeout: 5 * time.Second, DialContext: func(ctx context.Context, network, addr string) (net.Conn, error) {
 		// the rooted name is not in /etc/hosts and there is no DNS: the caller's transport knows where it lives
 		if h, p, err := net.SplitHostPort(addr); err == nil && h == "localhost." {
 			addr = net.JoinHostPort("127.0.0.1", p)
@@ -301,6 +302,9 @@ func run(c Case) (evid.Verdict, Obs) {
 		return harness("NewRequest: %v", err)
 	}
 	req.Header.Set("X-Case", "c18")
+	if c.Expect {
+		req.Header.Set("Expect", "100-continue")
+	}
 	type result struct {
 		resp *http.Response
 		err  error
@@ -380,11 +384,20 @@ func run(c Case) (evid.Verdict, Obs) {
 	}
 	rc := acceptor.NewReplayCache()
 	now := time.Now()
+	// a client that was challenged before its body had been sent and cannot send it again may fail; net/http then breaks
+	// off the retry it was handed (announced length, no body), which the server sees as an incomplete request
+	loudEarlyFailure := res.err != nil && errClass(res.err) == "content-length" && errorCause(recs) == "early-challenge"
 	for i, r := range recs {
+		if r.Unread {
+			continue // nothing of this request's body was read by the server
+		}
+		if loudEarlyFailure && r.BodyErr != "" && i == len(recs)-1 {
+			continue
+		}
 		if i > 0 && recs[i-1].Step.Redirect() && recs[i-1].Method == "POST" && r.Method != "POST" && len(r.Body) > 0 {
 			o.BodyToGET = max(o.BodyToGET, 1+(r.Host^recs[i-1].Host))
 		}
-		if r.BodyErr != "" && i > 0 && recs[i-1].Step == httpsrv.Challenge {
+		if r.BodyErr != "" && i > 0 && recs[i-1].Step.IsChallenge() {
 			return evid.Fail("retry-body:lost", "the retry of the challenged request #%d arrived with an incomplete body (%s after %d of %d bytes); %s", recs[i-1].Seq, r.BodyErr, len(r.Body), len(recs[i-1].Body), ctx), o
 		}
 		if r.BodyErr != "" {
@@ -397,7 +410,7 @@ func run(c Case) (evid.Verdict, Obs) {
 		if n := len(r.Header.Values("Authorization")); n > 1 {
 			return evid.Fail("authorization:multiple", "request #%d carries %d Authorization headers; %s", r.Seq, n, ctx), o
 		}
-		answer := i > 0 && recs[i-1].Step == httpsrv.Challenge && !recs[i-1].OverBound
+		answer := i > 0 && recs[i-1].Step.IsChallenge() && !recs[i-1].OverBound
 		hv, ok := hasNegotiate(r.Header)
 		if ok {
 			o.Tokens++
@@ -433,8 +446,12 @@ func run(c Case) (evid.Verdict, Obs) {
 		if r.Method != ch.Method {
 			return evid.Fail("retry-method", "the challenged request was a %s, the retry is a %s; %s", ch.Method, r.Method, ctx), o
 		}
-		if !bytes.Equal(r.Body, ch.Body) {
-			return evid.Fail("retry-body:"+bodyDiff(ch.Body, r.Body), "the challenged request carried a body of %d bytes, the retry carries %d bytes and they differ; %s", len(ch.Body), len(r.Body), ctx), o
+		chBody := ch.Body
+		if ch.Unread {
+			chBody = body // the server challenged on the headers alone: the attempt's body is the caller's
+		}
+		if !bytes.Equal(r.Body, chBody) {
+			return evid.Fail("retry-body:"+bodyDiff(chBody, r.Body), "the challenged request carried a body of %d bytes, the retry carries %d bytes and they differ; %s", len(chBody), len(r.Body), ctx), o
 		}
 		o.Answered++
 		if len(r.Body) > 0 {
@@ -445,20 +462,23 @@ func run(c Case) (evid.Verdict, Obs) {
 		}
 	}
 	for i, r := range recs {
-		if r.Step != httpsrv.Challenge || r.OverBound || i+1 < len(recs) {
+		if !r.Step.IsChallenge() || r.OverBound || i+1 < len(recs) {
 			continue
 		}
 		// the last request was challenged and nothing followed
 		if _, carried := hasNegotiate(r.Header); !carried {
-			if res.err != nil && errClass(res.err) == "content-length" {
+			if res.err != nil && errClass(res.err) == "content-length" && !r.Unread {
 				// the retry was attempted but net/http refused to send it: the body handed to it was shorter than announced
 				return evid.Fail("retry-body:lost", "request #%d was challenged and the retry could not be sent because its body was no longer available; %s", r.Seq, ctx), o
+			}
+			if r.Unread && res.err != nil {
+				continue // challenged before the body was sent; the client reported that it cannot send it again
 			}
 			return evid.Fail("challenge-not-answered", "request #%d carried no token, was answered 401 Negotiate, and the client did not retry with a token; %s", r.Seq, ctx), o
 		}
 	}
 	// the first request reproduces the caller's request
-	if f := recs[0]; f.Method != c.Method || !bytes.Equal(f.Body, body) || f.RequestURI != "/start" {
+	if f := recs[0]; f.Method != c.Method || (!f.Unread && !bytes.Equal(f.Body, body)) || f.RequestURI != "/start" {
 		return evid.Fail("first-request-altered", "the first request is %s %s with %d body bytes (%s), the caller asked for %s /start with %d; %s", f.Method, f.RequestURI, len(f.Body),
 			bodyDiff(body, f.Body), c.Method, len(body), ctx), o
 	}
@@ -466,7 +486,7 @@ func run(c Case) (evid.Verdict, Obs) {
 	last := recs[len(recs)-1]
 	if res.err != nil {
 		o.Outcome = "error:" + errClass(res.err)
-		if errClass(res.err) == "content-length" {
+		if errClass(res.err) == "content-length" && errorCause(recs) != "early-challenge" {
 			// net/http refuses to send a request whose body ends before the announced length: the client handed it a
 			// body that was no longer the caller's
 			return evid.Fail("resend-body:lost", "Do failed because a request it re-sent no longer had the caller's body (%d bytes); %s", len(body), ctx), o
@@ -511,10 +531,16 @@ func errClass(err error) string {
 func errorCause(recs []httpsrv.Request) string {
 	ch := 0
 	for _, r := range recs {
+		if r.Unread {
+			// the server challenged before the body had been sent: a client that cannot send it again may say so
+			return "early-challenge"
+		}
+	}
+	for _, r := range recs {
 		if r.Step.Redirect() {
 			return "redirect"
 		}
-		if r.Step == httpsrv.Challenge {
+		if r.Step.IsChallenge() {
 			ch++
 		}
 	}
@@ -548,7 +574,7 @@ func count(r *evid.Run, c Case, gen string) {
 		if s.KeepsMethod() {
 			nKeep++
 		}
-		if s == httpsrv.Challenge {
+		if s.IsChallenge() {
 			nCh++
 		}
 		if s.Redirect() {
@@ -789,6 +815,16 @@ func TestProp(t *testing.T) {
 		if (c.Method == "POST" || c.BodyKind == "none") && rapid.IntRange(0, 3).Draw(t, "via") == 0 {
 			c.Via = "helper"
 		}
+		if c.BodyKind != "none" && c.BodySize > 0 && c.Via != "helper" && rapid.IntRange(0, 3).Draw(t, "expect") == 0 {
+			// an upload announced with Expect: 100-continue; only then does the script also hold servers that challenge on
+			// the headers alone (without Expect how much of the body such a server has taken is a matter of timing)
+			c.Expect = true
+			for i := range c.Prefix {
+				if c.Prefix[i] == string(httpsrv.Challenge) && rapid.Bool().Draw(t, "early") {
+					c.Prefix[i] = string(httpsrv.ChallengeEarly)
+				}
+			}
+		}
 		count(r, c, "rapid")
 		v, o := Run(c)
 		observe(r, c, o)
@@ -881,13 +917,24 @@ func TestProp(t *testing.T) {
 		}
 	}
 	r.Exhaustive("every script of 1..3 steps over {401 Negotiate, 307 same host, 307 other host, 308 same host} then 200, under POST with bodies of 1 B, 64 KiB+1 and a 4 KiB stream (thorough: also 1 MiB and a 64 KiB+1 stream)")
+	// uploads announced with Expect: 100-continue to servers that challenge on the headers alone (the body of that
+	// attempt is never sent) or after reading the body
+	for _, pre := range [][]string{{"401-negotiate-early"}, {"401-negotiate-early", "401-negotiate-early"}, {"401-negotiate"}, {"302-same-host", "401-negotiate-early"}, {"401-negotiate-early", "307-same-host", "401-negotiate"},
+		{"307-other-host", "401-negotiate-early"}, {"401-negotiate", "307-same-host", "401-negotiate-early"}} {
+		for bi, b := range []bodyProfile{{"bytes", 1}, {"bytes", 65537}, {"stream", 1}, {"stream", 4096}, {"stream", 65537}} {
+			k++
+			jobs = append(jobs, Case{Prefix: pre, Tail: "200", Method: "POST", BodyKind: b.kind, BodySize: b.size, Expect: true, SPN: spns[(k+bi)%len(spns)], TktEType: ref.ETypes[k%6], SessEType: ref.ETypes[(k/6)%6],
+				Seed: r.Seed()*32452843 + uint64(k)})
+			gens = append(gens, "enum-expect-continue")
+		}
+	}
 	for _, te := range ref.ETypes {
 		for _, se := range ref.ETypes {
 			jobs = append(jobs, Case{Prefix: []string{"401-negotiate"}, Tail: "200", Method: "POST", BodyKind: "bytes", BodySize: 100, SPN: "explicit", TktEType: te, SessEType: se, Seed: r.Seed() + uint64(te*100+se)})
 			gens = append(gens, "enum-etypes")
 		}
 	}
-	r.Rule(fmt.Sprintf("enum: every prefix of length <= %d x 7 tails at GET/no body/explicit SPN and every prefix of length <= %d x 7 tails at POST/4 KiB/derived SPN; every non-settling cycle of 2..3 steps over {401 Negotiate, 302 same/other host, 307} after three prefixes; every script of 1..3 steps over {401 Negotiate, 307 same/other host, 308} under POST with three (thorough: five) bodies; four authentication scripts x method x body kind x size x SPN mode (quick: a seeded 1/4 slice without the 1 MiB bodies); every ticket etype x session etype on challenge-then-200",
+	r.Rule(fmt.Sprintf("enum: every prefix of length <= %d x 7 tails at GET/no body/explicit SPN and every prefix of length <= %d x 7 tails at POST/4 KiB/derived SPN; every non-settling cycle of 2..3 steps over {401 Negotiate, 302 same/other host, 307} after three prefixes; every script of 1..3 steps over {401 Negotiate, 307 same/other host, 308} under POST with three (thorough: five) bodies; uploads with Expect: 100-continue against seven scripts with servers that challenge on the headers alone x five bodies; four authentication scripts x method x body kind x size x SPN mode (quick: a seeded 1/4 slice without the 1 MiB bodies); every ticket etype x session etype on challenge-then-200",
 		profiles[0].maxLen, profiles[1].maxLen))
 	evid.Parallel(len(jobs), 64, func(i int) {
 		c := jobs[i]
